@@ -30,7 +30,9 @@ func (c15) Rule() string {
 	return "families: (sort) pools of 0-12 scalars mixing null/bool/int (64-bit extremes, hex/octal spellings)/float/strings (incl. number-like) with duplicates: " +
 		"output is a permutation, adjacent elements ordered under the reference where defined, idempotent, independent of the input order up to ties; " +
 		"(stable) sort_by(.k) over {k,id} maps keeps equal keys in input order; (laws) antisymmetry and transitivity of the order induced by pairwise `sort` on all pairs/triples of a pool of <=7 values; " +
-		"(cmp) `.[i] < .[j]`, <=, >, >=, min, max agree with the reference on same-class operands and are mutually consistent; (keys) sort_keys(..) changes key order only. " +
+		"(cmp) `.[i] < .[j]`, <=, >, >=, min, max agree with the reference on same-class operands and are mutually consistent; (keys) sort_keys(..) changes key order only; " +
+		"(multikey, every 12th case) sort_by(f) with f yielding a tuple of 1-5 keys per element (flat union, hand-parenthesised union, union behind a pipe, collected sequence splatted, splat over a per-element key sequence) over a sequence, a sequence under a path, or a map, columns with few distinct values so that prefixes tie: " +
+		"the result is the stable lexicographic order of the generator's own key tuples under the reference (ref.SortBy), also for a shuffled arrangement, and equals sort_by(kN) | ... | sort_by(k1) one key at a time. " +
 		"Non-trivial = pool has >=3 elements of >=2 classes or extremes; distinct by hash of the pool."
 }
 func (c15) Assumptions() []string {
@@ -172,6 +174,9 @@ func classes(els []c15El) int {
 func (p c15) Run(w *mon.Worker, idx int) mon.Result {
 	r := w.Rand(idx)
 	fam := []string{"sort", "sort", "stable", "laws", "cmp", "keys"}[idx%6]
+	if idx%12 == 1 {
+		fam = "multikey" // every twelfth case (one of the two `sort` slots, every other time)
+	}
 	res := mon.Result{Tags: []string{"family:" + fam}}
 	fail := func(f string, a ...any) mon.Result {
 		res.Verdict = mon.Violated
@@ -179,6 +184,8 @@ func (p c15) Run(w *mon.Worker, idx int) mon.Result {
 		return res
 	}
 	switch fam {
+	case "multikey":
+		return c15MultiKey(r, res)
 	case "sort":
 		els := c15Pool(r, 12)
 		if r.IntN(4) == 0 {
